@@ -1,10 +1,143 @@
-(* C19/Props.v *)
-From Coq Require Import ZArith List Lia Bool.
-From PV Require Import C19.Model C19.Spec C19.Proofs.
+(* C19/Props.v -- the property theorems, and nothing else.  Each is closed by [exact] of a lemma of
+   Proofs.v / Proofs2.v and followed by Print Assumptions.
+
+   The model is the code of phylib/utils/event.py AFTER the two repairs of branch fix-c19
+   (silent() saves and restores the flag; ProgressReporter.reset() goes through the value_max
+   setter and re-arms).  On the unrepaired code both statements are false (nested silent()
+   blocks; reset after a completion): see notes/C19.md for the failing histories. *)
+From Coq Require Import ZArith List Lia Bool Sorted.
+From PV Require Import C19.Model C19.Spec C19.Proofs C19.Proofs2.
 Import ListNotations.
 Open Scope Z_scope.
 
-Theorem C19_stub : forall (Arg Res : Type) (beh : func -> Z -> Arg -> Res) s ev snd a single,
-  flag s = true -> emit beh s ev snd a single = OEmit [] RNone.
-Proof. exact emit_silent_nothing. Qed.
-Print Assumptions C19_stub.
+(* ---------------------------------------------------------------------------------------------
+   Event dispatch.  For every argument type, result type and callback behaviour, every history p
+   of connect / unconnect / reset / set_silent / silent()-enter / silent()-leave / emit operations
+   that stays inside the reading (blocks are left only when open; set_silent is not called inside
+   a silent() block), and every emit executed after p (whatever follows it):
+   what the emitter does is [spec_emit], which is defined on the HISTORY alone:
+     - while silenced (an open silent() block, or the last set_silent was True): no call, returns None;
+     - otherwise the callbacks of the successful connects of p that no later reset / unconnect (by
+       function, by sender filter, by owner) of p removed, restricted to this event and to a sender
+       filter that is absent or equal to the emitting sender, non-'last' ones in registration order
+       followed by 'last' ones in registration order, each called with the emitting sender and the
+       emit's arguments unchanged;
+     - returns the list of their results in call order; with a truthy `single`: calls only the
+       first one and returns its result (the empty list when nothing matches). *)
+Theorem C19_dispatch : forall (Arg Res : Type) (beh : func -> Z -> Arg -> Res)
+    (p : list (op Arg)) (ev snd : Z) (a : Arg) (single : option bool) (rest : list (op Arg)),
+  silent_ok p = true ->
+  nth_error (outs beh init (p ++ Emit ev snd a single :: rest)) (length p) =
+  Some (spec_emit beh p ev snd a single).
+Proof. exact dispatch. Qed.
+Print Assumptions C19_dispatch.
+
+(* "currently registered", by positions in the history: the list used by [spec_emit] consists
+   exactly of the callbacks c registered by a successful connect at some position i such that no
+   operation after position i is a reset or an unconnect with an item that is c's function, c's
+   sender filter or the owner of c's bound method -- listed by increasing position i. *)
+Theorem C19_registered_meaning : forall (Arg : Type) (p : list (op Arg)),
+  map snd (registered_ix 0 p) = registered p /\
+  StronglySorted (fun a b => (fst a < fst b)%nat) (registered_ix 0 p) /\
+  (forall i c, In (i, c) (registered_ix 0 p) <-> Registered p i c).
+Proof. exact registered_meaning. Qed.
+Print Assumptions C19_registered_meaning.
+
+(* who is called: exactly the registered callbacks for that event whose filter admits the sender *)
+Theorem C19_called_exactly : forall (ev snd : Z) (reg : list entry) (c : entry),
+  In c (expected ev snd reg) <->
+  In c reg /\ e_event c = ev /\ (e_sender c = None \/ e_sender c = Some snd).
+Proof. exact expected_in_prop. Qed.
+Print Assumptions C19_called_exactly.
+
+(* in which order: the non-'last' matching callbacks in registration order, then the 'last' ones *)
+Theorem C19_last_after_others : forall (ev snd : Z) (reg : list entry),
+  exists l1 l2, expected ev snd reg = l1 ++ l2 /\
+    Forall (fun c => e_last c = false) l1 /\ Forall (fun c => e_last c = true) l2 /\
+    l1 = filter (fun c => negb (e_last c)) (filter (matches ev snd) reg) /\
+    l2 = filter e_last (filter (matches ev snd) reg).
+Proof. exact expected_split. Qed.
+Print Assumptions C19_last_after_others.
+
+(* the guard of C19_dispatch is needed: with set_silent(False) inside a silent() block the
+   (repaired) emitter calls callbacks although a silent() block is open *)
+Theorem C19_dispatch_needs_reading :
+  exists (p : list (op Z)) ev snd a single,
+    silent_ok p = false /\
+    nth_error (outs (fun _ _ x => x) init (p ++ [Emit ev snd a single])) (length p) <>
+    Some (spec_emit (fun _ _ x => x) p ev snd a single).
+Proof. exact guard_needed. Qed.
+Print Assumptions C19_dispatch_needs_reading.
+
+(* ---------------------------------------------------------------------------------------------
+   Progress reporter.  For every history p over {increment, value = v, value_max = m,
+   set_complete, reset(None | k)} and every next operation o: completion is announced during o
+   iff o is a value update that reaches the maximum and every earlier announcement is followed,
+   before o, by an operation that sets the value below the maximum or raises the maximum.
+   (Reaches / Rearms are defined on the history: Spec.v.) *)
+Theorem C19_progress : forall (p : list pop) (o : pop),
+  Completes p o <->
+  Reaches p o /\
+  forall p1 o1 p2, p = p1 ++ o1 :: p2 -> Completes p1 o1 ->
+    exists q1 x q2, p2 = q1 ++ x :: q2 /\ Rearms (p1 ++ [o1] ++ q1) x.
+Proof. exact progress_once. Qed.
+Print Assumptions C19_progress.
+
+(* the statement determines the announcements: whatever satisfies it is the model's behaviour
+   (so checking the statement on an observed trace is checking the trace) *)
+Theorem C19_progress_unique : forall (Ann : list pop -> pop -> Prop),
+  (forall p o, Ann p o <->
+     Reaches p o /\
+     forall p1 o1 p2, p = p1 ++ o1 :: p2 -> Ann p1 o1 ->
+       exists q1 x q2, p2 = q1 ++ x :: q2 /\ Rearms (p1 ++ [o1] ++ q1) x) ->
+  forall p o, Ann p o <-> Completes p o.
+Proof. exact progress_unique. Qed.
+Print Assumptions C19_progress_unique.
+
+(* value, maximum and progress events follow the history: the maximum is the last one assigned,
+   the value is the last absolute assignment plus the increments since; every value update emits
+   progress(value, maximum) first and at most one completion; nothing else emits *)
+Theorem C19_progress_values : forall (p : list pop) (o : pop),
+  p_value (pexec pinit p) = value_after p /\ p_max (pexec pinit p) = max_after p /\
+  let evs := snd (pstep (pexec pinit p) o) in
+  if is_update o
+  then evs = [EvProgress (value_after (p ++ [o])) (max_after (p ++ [o]))] \/
+       evs = [EvProgress (value_after (p ++ [o])) (max_after (p ++ [o])); EvComplete]
+  else evs = [].
+Proof. exact progress_values. Qed.
+Print Assumptions C19_progress_values.
+
+(* ---- non-vacuity: concrete, non-trivial instances ---- *)
+Definition f0 := mkfunc 0 (Some 0) None.        (* def on_ev0 *)
+Definition f1 := mkfunc 1 (Some 1) None.        (* def on_ev1 *)
+Definition f2 := mkfunc 2 None None.            (* a function not named on_<event> *)
+Definition m3 := mkfunc 3 (Some 0) (Some 0).    (* bound method on_ev0 of object 0 *)
+Definition ex_hist : list (op Z) :=
+  [Connect f2 (Explicit 0) None true;           (* 'last', registered first *)
+   Connect f0 ByName None false;
+   Connect f1 (Explicit 0) (Some 1) false;      (* only for sender 1 *)
+   Connect m3 ByName None false;
+   Connect f2 ByName None false;                (* ValueError: nothing registered *)
+   Unconnect [TObj 0];                          (* removes the bound method of object 0 *)
+   SilentEnter; SilentEnter; SilentExit].       (* still inside the outer block *)
+
+Example C19_ex_regime : silent_ok (ex_hist ++ [SilentExit]) = true.
+Proof. vm_compute. reflexivity. Qed.
+Example C19_ex_silenced :
+  nth_error (outs (fun _ _ x => x) init (ex_hist ++ [Emit 0 1 7 None])) (length ex_hist) =
+  Some (OEmit [] RNone).
+Proof. vm_compute. reflexivity. Qed.
+Example C19_ex_calls :
+  nth_error (outs (fun f _ x => fn_id f + x) init (ex_hist ++ [SilentExit; Emit 0 1 7 None]))
+            (S (length ex_hist)) =
+  Some (OEmit [mkcall f0 1 7; mkcall f1 1 7; mkcall f2 1 7] (RList [7; 8; 9])).
+Proof. vm_compute. reflexivity. Qed.
+Example C19_ex_single :
+  spec_emit (fun f _ x => fn_id f + x) (ex_hist ++ [SilentExit]) 0 0 7 (Some true) =
+  OEmit [mkcall f0 0 7] (RSingle 7).
+Proof. vm_compute. reflexivity. Qed.
+Example C19_ex_progress :
+  pouts pinit [PSetMax 1; PSetValue 1; PSetValue 1; PReset None; PSetValue 1; PReset (Some 3); PSetComplete] =
+  [[]; [EvProgress 1 1; EvComplete]; [EvProgress 1 1]; []; [EvProgress 1 1; EvComplete]; [];
+   [EvProgress 3 3; EvComplete]].
+Proof. vm_compute. reflexivity. Qed.
